@@ -86,7 +86,7 @@ def vjoin(*vs: Val) -> Val:
 
 def elems(v: Val) -> Val:
     """An item / iteration variable / field of `v`."""
-    return Val(frozenset(p + ("[]",) for p in v.al) | v.el, frozenset(), v.deps)
+    return Val(frozenset(p + ("[]",) for p in v.al) | v.el, frozenset(), v.deps, v.fns)
 
 
 def holder(*vs: Val) -> Val:
@@ -526,6 +526,15 @@ class Walker:
         return ps  # Pass and anything without effect on the question
 
     def do_for(self, s, fr: Frame, ps: PS) -> "PS | None":
+        if isinstance(s.iter, (ast.Tuple, ast.List)) and 0 < len(s.iter.elts) <= 12 and not s.orelse and not any(isinstance(x, ast.Starred) for x in s.iter.elts) and not any(isinstance(n, (ast.Break, ast.Continue)) for n in ast.walk(s)):
+            # a loop over a display (a table of steps): the body runs once per item, in order
+            cur: PS | None = ps
+            for x in s.iter.elts:
+                if cur is None:
+                    return None
+                self.bind(s.target, self.ev(x, fr, cur), x, fr, cur, s)
+                cur = self.block(s.body, fr, cur)
+            return cur
         itv = self.ev(s.iter, fr, ps)
         self.use(itv, s.iter, fr, ps)
         loop = _Loop()
@@ -580,7 +589,7 @@ class Walker:
         if isinstance(t, ast.Attribute):
             bv = self.ev(t.value, fr, ps)
             self.follow(bv, t, fr, ps)
-            return tuple(self.attr_path(p, t.attr) for p in bv.al | (bv.el if not bv.al else frozenset()))
+            return tuple(self.attr_path(p, t.attr) for p in bv.al)
         if isinstance(t, ast.Subscript):
             bv = self.ev(t.value, fr, ps)
             self.follow(bv, t, fr, ps)
@@ -630,8 +639,8 @@ class Walker:
             return
         if isinstance(t, ast.Attribute):
             bv = self.ev(t.value, fr, ps)
-            bases = bv.al | (bv.el if not bv.al else frozenset())
-            self.rebind([self.attr_path(p, t.attr) for p in bases], v, fr, ps, s, f"{norm(t, 60)} = ...")
+            # (a store into a field of an object made in this call is no write to what the object's other fields hold)
+            self.rebind([self.attr_path(p, t.attr) for p in bv.al], v, fr, ps, s, f"{norm(t, 60)} = ...")
             self.taint_root(t.value, v, fr, ps)
             return
         if isinstance(t, ast.Subscript):
@@ -992,7 +1001,7 @@ class Walker:
             return self.method_call(e, f, rv, args, kwargs, star, fr, ps)
         fv = self.ev(f, fr, ps)
         if fv.fns:
-            return vjoin(*[self.call_fn(fn, ([b] if b is not None and self.binds_receiver(fn) else []) + args, kwargs, fr, ps, e, recv=b, star=star) for fn, b in fv.fns])
+            return self.call_any(sorted(fv.fns, key=lambda t: t[0].fq), args, kwargs, star, fr, ps, e)
         if isinstance(f, ast.Name):
             cls_paths = [p for p in fv.al if len(p) == 1 and p[0].startswith("cls:")]
             if cls_paths:
@@ -1001,6 +1010,24 @@ class Walker:
         for v in [*args, *kwargs.values()]:
             self.use(v, e, fr, ps)
         return scalar(fv, *args, *kwargs.values(), *star)
+
+    def call_any(self, fns: list, args, kwargs, star, fr: Frame, ps: PS, e: ast.AST) -> Val:
+        """One of several possible callees runs: their effects on the path state are alternatives."""
+        out, states = [], []
+        for fn, b in fns:
+            sub = ps.fork() if len(fns) > 1 else ps
+            try:
+                out.append(self.call_fn(fn, ([b] if b is not None and self.binds_receiver(fn) else []) + list(args), kwargs, fr, sub, e, recv=b, star=star))
+                states.append(sub)
+            except _Dead:
+                continue
+        if not states:
+            raise _Dead()
+        if len(fns) > 1:
+            m = merge(states)
+            assert m is not None
+            ps.take(m)
+        return vjoin(*out)
 
     @staticmethod
     def binds_receiver(fn: FuncInfo) -> bool:
